@@ -428,6 +428,37 @@ def search(ctx, deep):
             else:
                 nontriv.add(('sqlite', query_text(case), case['start'][1], case['stop'][1] if case['stop'] else None))
 
+    # (a') the same query text re-executed with changing parameter values, the slice sitting inside a subquery
+    #      (pinned parameters must be re-pinned wherever the translator caches look; found by seeded change c25b)
+    sub_forms = [
+        ('exists-slice', 'p.name for p in P if p.a == 0 and p.b == 0 and exists(q for q in P if q.id == p.id and q.name[x:y] == w)', lambda s, x, y: s[x:y]),
+        ('exists-slice-from', 'p.name for p in P if p.a == 0 and p.b == 0 and exists(q for q in P if q.id == p.id and q.name[x:] == w)', lambda s, x, y: s[x:]),
+        ('in-slice', 'p.name for p in P if p.a == 0 and p.b == 0 and w in (q.name[1:y] for q in P if q.id == p.id)', lambda s, x, y: s[1:y]),
+        ('exists-index', 'p.name for p in P if p.a == 0 and p.b == 0 and exists(q for q in P if q.id == p.id and q.name[x] == w)', lambda s, x, y: (s[x] if -len(s) <= x < len(s) else '')),
+    ]
+    names = [ALPHA[:n] for n in range(0, 7)]
+    svals = [v for v in vals if -4 <= v <= 4] if not deep else vals
+    for fname, text, pyf in sub_forms:
+        for x in svals:
+            for y in svals:
+                if (x == 0 and y == -1) and fname == 'exists-slice': continue      # the recorded sentinel defect, judged in (a)
+                for w in ('', 'a', 'b', 'ab', 'bc', 'abc'):
+                    with orm.db_session:
+                        try:
+                            got = sorted(orm.select(text, {'P': P, 'x': x, 'y': y, 'w': w, 'exists': orm.exists})[:])
+                        except Exception as e:
+                            got = 'EXC %s: %s' % (type(e).__name__, e)
+                    want = sorted(n for n in names if pyf(n, x, y) == w)
+                    evals += 1; dist['subquery_param_reexecutions'] = dist.get('subquery_param_reexecutions', 0) + 1
+                    if got != want:
+                        key = 'unlisted:sqlite:subquery-%s:reexecuted-with-new-parameter-values' % fname
+                        if seen_keys.setdefault(key, 0) < 1:
+                            failures.append(Failure(key, 'sqlite: %r with x=%r y=%r w=%r returns %r, Python filter gives %r (same query text executed before with other values)' % (text, x, y, w, got, want),
+                                                    {'provider': 'sqlite', 'via': 'subquery', 'form': fname, 'x': x, 'y': y, 'w': w}))
+                        seen_keys[key] += 1
+                    elif want:
+                        nontriv.add(('sub', fname, x, y, w))
+
     # (b) PostgreSQL / MySQL / Oracle: real translator + real builder, result judged under the dialect model
     for prov in ('postgres', 'mysql', 'oracle'):
         cases = [c for c in slice_cases(ctx) if c['provider'] == prov] + [c for c in index_cases(ctx) if c['provider'] == prov]
@@ -454,6 +485,12 @@ def search(ctx, deep):
 
 
 def replay(ctx, data):
+    if data.get('via') == 'subquery':
+        ctx2 = ctx
+        r = search(ctx2, False)
+        for f in r.failures:
+            if f.data.get('via') == 'subquery' and f.data.get('form') == data.get('form'): return f
+        return None
     prov, case, n, a, b = data['provider'], data['case'], data['n'], data['a'], data['b']
     if data.get('via') == 'real' and prov == 'sqlite':
         from pony import orm
